@@ -1037,6 +1037,14 @@ fn check_gh_spelling(g: &str, gh_pages: &[Page], l: &mut Local) {
 }
 
 fn replay(case: &Value, l: &mut Local) {
+    if let Some(t) = case["invalid_rule"].as_str() {
+        l.compared += 1;
+        l.evaluations += 1;
+        if parse_filter(t, false, ParseOptions::default()).is_ok() {
+            l.mismatch(Mismatch { sig: "c16.documented-invalid-rule-accepted".into(), what: format!("{:?} is accepted by the parser", t), case: case.clone(), size: t.len() as u64 });
+        }
+        return;
+    }
     if case["kind"].as_str() == Some("gh-spelling") {
         let pages: Vec<Page> = make_page(case["url"].as_str().unwrap_or("https://example.com/")).into_iter().collect();
         check_gh_spelling(case["rule"].as_str().unwrap_or(""), &pages, l);
@@ -1114,9 +1122,19 @@ fn startup_checks(ctx: &Ctx, alpha: &Alphabet, pages: &[Page]) {
             accepted_invalid.push(t.clone());
         }
     }
-    if !accepted_invalid.is_empty() {
-        ctx.note(format!("rules excluded as documented-invalid but accepted by the parser (not explored): {:?}", accepted_invalid));
+    // (error variants GenericUnhide, GenericScriptInject, GenericAction, DoubleNegation of the parser:
+    // such a rule has no defined scope, so loading it would put selectors on pages no rule covers)
+    let mut l = Local::default();
+    l.compared += alpha.excluded.len() as u64;
+    for t in &accepted_invalid {
+        l.mismatch(Mismatch {
+            sig: "c16.documented-invalid-rule-accepted".into(),
+            what: format!("{:?} is a form the documented grammar rejects (generic unhide / generic action or scriptlet / negated location on an exception), but the parser accepts it", t),
+            case: json!({"invalid_rule": t}),
+            size: t.len() as u64,
+        });
     }
+    ctx.merge(l);
 }
 
 fn check(ctx: &Ctx) -> i32 {
